@@ -9,6 +9,7 @@ CONSTANTS
 INVARIANT GetterNeverMisreports
 INVARIANT ListsReportAll
 INVARIANT AbsentProtocol
+INVARIANT ZeroValuesProtocol
 INVARIANT HasParamExact
 INVARIANT PresentProtocol
 INVARIANT StoreOnlyOnSuccess
